@@ -46,7 +46,12 @@ class _Budget:
         self.n = n
 
 
-def minimise(spec, case, div, mask, cache, max_evals=MAX_EVALS):
+MAX_WALL = 240.0
+
+
+def minimise(spec, case, div, mask, cache, max_evals=MAX_EVALS, max_wall=MAX_WALL):
+    import time
+    t_end = time.time() + max_wall
     target = classify(div)
     budget = _Budget(max_evals)
     ops = copy.deepcopy(case["ops"])
@@ -54,7 +59,8 @@ def minimise(spec, case, div, mask, cache, max_evals=MAX_EVALS):
 
     def fails(cand):
         nonlocal best_div
-        if budget.n <= 0:
+        if budget.n <= 0 or time.time() > t_end:
+            budget.n = 0
             return False
         budget.n -= 1
         try:
@@ -103,8 +109,54 @@ def minimise(spec, case, div, mask, cache, max_evals=MAX_EVALS):
                     break
             if progress:
                 break
+    # 3. paired structural shrinking of near-twins / same-shaped models (keeps them twins)
+    progress = True
+    while progress and budget.n > 0:
+        progress = False
+        news = [k for k, op in enumerate(ops) if op["op"] == "new"]
+        for i in range(len(news)):
+            for j in range(i + 1, len(news)):
+                a, b = ops[news[i]]["recipe"], ops[news[j]]["recipe"]
+                if _shape(a) != _shape(b):
+                    continue
+                for va, vb in zip(_structural_variants(a), _structural_variants(b)):
+                    if va[0] in ("var", "str", "ref") or vb[0] in ("var", "str", "ref"):
+                        continue
+                    cand = list(ops)
+                    cand[news[i]] = dict(ops[news[i]], recipe=va)
+                    cand[news[j]] = dict(ops[news[j]], recipe=vb)
+                    if fails(cand):
+                        ops = cand
+                        progress = True
+                        break
+                if progress:
+                    break
+            if progress:
+                break
     return {"ops": ops, "divergence": best_div, "class": list(target), "evals": max_evals - budget.n,
             "original_len": len(case["ops"])}
+
+
+def _shape(r):
+    return (r[0], tuple(_shape(c) for c in R.children(r)))
+
+
+def _structural_variants(r):
+    """edits whose enumeration order depends on the shape only (so two same-shaped recipes can be edited in step)"""
+    t = r[0]
+    ch = R.children(r)
+    if t not in ("Stingy",):
+        for c in ch:
+            if c[0] != "ref":
+                yield c
+    if t in R.LIST_CHILD_POS and len(ch) > 1:
+        for i in range(len(ch)):
+            yield R.with_children(r, ch[:i] + ch[i + 1:])
+    for i, c in enumerate(ch):
+        for v in _structural_variants(c):
+            nch = list(ch)
+            nch[i] = v
+            yield R.with_children(r, nch)
 
 
 def _recipe_variants(r):
